@@ -397,3 +397,128 @@ func histAuditKeys(c *Ctx, rule string, r *histRoles) {
 	}
 	_ = nR
 }
+
+// R: audit-path wire codec — Serialize renders (BE64 of key[:8], BE16 of key[8:])
+// with one separator; ParseAuditPath splits on the same separator and rebuilds
+// key[:8] from token 0 at full 64-bit width and key[8:] from token 1.
+func histAuditCodec(c *Ctx, rule string) {
+	p := c.P
+	ser := p.MustMethod(pkgHistory, "AuditPath", "Serialize")
+	par := p.MustFunc(pkgHistory, "ParseAuditPath")
+	isConst := func(t *Term, vals ...string) bool {
+		if t.Op != "const" {
+			return false
+		}
+		for _, v := range vals {
+			if t.Name == v {
+				return true
+			}
+		}
+		return false
+	}
+	utilCall := func(t *Term, name string) bool {
+		return t.Op == "call" && t.Fn != nil && t.Fn.Name() == name && t.Fn.Pkg != nil && t.Fn.Pkg.Pkg.Path() == modPkg("util")
+	}
+	// --- writer
+	format, sep := "", ""
+	okW := false
+	eachInstr(ser, func(in ssa.Instruction) {
+		cc := callCommon(in)
+		if cc == nil || !isCallToFunc(cc, "fmt", "Sprintf") {
+			return
+		}
+		t := p.TermOf(in.(ssa.Value))
+		if len(t.Args) != 2 || t.Args[0].Op != "const" || t.Args[1].Op != "list" || len(t.Args[1].Args) != 2 {
+			return
+		}
+		format = strings.Trim(t.Args[0].Name, `"`)
+		a, b := t.Args[1].Args[0], t.Args[1].Args[1]
+		okA := utilCall(a, "BytesAsUint64") && a.Args[0].Op == "slice" && isConst(a.Args[0].Args[1], "_", "0") && isConst(a.Args[0].Args[2], "8")
+		okB := utilCall(b, "BytesAsUint16") && b.Args[0].Op == "slice" && isConst(b.Args[0].Args[1], "8") && isConst(b.Args[0].Args[2], "_", "10")
+		if okA && okB && strings.HasPrefix(format, "%d") && strings.HasSuffix(format, "%d") && len(format) > 4 {
+			sep = format[2 : len(format)-2]
+			okW = true
+		}
+	})
+	c.Check(okW, rule, funcName(ser)+":writer", ser.Pos(), fmt.Sprintf("key rendered as %q of (BE64 key[:8], BE16 key[8:])", format), "AuditPath.Serialize no longer renders its keys as <uint64 of key[:8]><sep><uint16 of key[8:]> (format "+format+")")
+	// --- reader
+	type cp struct {
+		lo, hi string
+		src    *Term
+		pos    ssa.Instruction
+	}
+	var cps []cp
+	eachInstr(par, func(in ssa.Instruction) {
+		cc := callCommon(in)
+		if cc == nil {
+			return
+		}
+		if b, ok := cc.Value.(*ssa.Builtin); !ok || b.Name() != "copy" {
+			return
+		}
+		dst, src := p.TermOf(cc.Args[0]), p.TermOf(cc.Args[1])
+		if dst.Op == "slice" && dst.Args[1].Op == "const" && dst.Args[2].Op == "const" {
+			cps = append(cps, cp{dst.Args[1].Name, dst.Args[2].Name, src, in})
+		}
+	})
+	parseOf := func(t *Term, tokenIdx string, minBits int) string {
+		// t = parse(strings.Split(k, sep)[tokenIdx])#0
+		var why string
+		found := t.Has(func(x *Term) bool {
+			if x.Op != "call" || x.Fn == nil || x.Fn.Pkg == nil || x.Fn.Pkg.Pkg.Path() != "strconv" {
+				return false
+			}
+			tok := x.Args[0]
+			if tok.Op != "index" || !isConst(tok.Args[1], tokenIdx) || !(tok.Args[0].Op == "call" && tok.Args[0].Fn != nil && tok.Args[0].Fn.Name() == "Split" && len(tok.Args[0].Args) == 2 && isConst(tok.Args[0].Args[1], `"`+sep+`"`)) {
+				why = "token is " + tok.String()
+				return false
+			}
+			switch x.Fn.Name() {
+			case "Atoi":
+				return true
+			case "ParseInt", "ParseUint":
+				if len(x.Args) == 3 && x.Args[2].Op == "const" {
+					if x.Args[2].Name == "0" {
+						return true
+					}
+					var n int
+					fmt.Sscanf(x.Args[2].Name, "%d", &n)
+					if n >= minBits {
+						return true
+					}
+					why = fmt.Sprintf("parsed with bit size %d < %d", n, minBits)
+				}
+			}
+			return false
+		})
+		if found {
+			return ""
+		}
+		if why == "" {
+			why = "not parsed from token " + tokenIdx + " of the key split on " + sep
+		}
+		return why
+	}
+	var okIdx, okH bool
+	var whyIdx, whyH string = "no copy into key[:8]", "no copy into key[8:]"
+	for _, k := range cps {
+		if (k.lo == "_" || k.lo == "0") && k.hi == "8" {
+			if utilCall(k.src, "Uint64AsBytes") {
+				whyIdx = parseOf(k.src, "0", 64)
+				okIdx = whyIdx == ""
+			} else {
+				whyIdx = "key[:8] ← " + k.src.String()
+			}
+		}
+		if k.lo == "8" && (k.hi == "_" || k.hi == "10") {
+			if utilCall(k.src, "Uint16AsBytes") {
+				whyH = parseOf(k.src, "1", 16)
+				okH = whyH == ""
+			} else {
+				whyH = "key[8:] ← " + k.src.String()
+			}
+		}
+	}
+	c.Check(okIdx, rule, funcName(par)+":index", par.Pos(), "key[:8] ← BE64(parse64(token 0))", "index part of the audit-path key: "+whyIdx)
+	c.Check(okH, rule, funcName(par)+":height", par.Pos(), "key[8:] ← BE16(parse(token 1))", "height part of the audit-path key: "+whyH)
+}
